@@ -1,6 +1,10 @@
 import MpsProofs.Handler
+import MpsProofs.Order
 /-
   C07 — Outcome is independent of delivery order, duplication and early arrival (handler model).
+
+  Main theorem: `order_independent` (lemmas in MpsProofs/Order.lean). The elementary facts about single
+  deliveries (`refused_noop` … `early_message_is_only_queued`) hold for arbitrary, also dishonest, messages.
 -/
 namespace Mps.C07
 open Mps Mps.Handler
@@ -32,13 +36,127 @@ theorem early_message_is_only_queued (H : Bytes → Bytes) (s : State) (m : Msg)
   have : (m.rnd == 0) = false := by simpa using h0
   simp [accept, hc, this, acceptStored, h]
 
-/-
-  Full statement (not yet proved; checked against the model by suite `handler`, op `conc`):
+/-! ### order independence -/
 
-  theorem order_independent (H) (scs : honest scripts of one session) (sched : any sequence of deliveries of
-      messages emitted in that session, containing every emitted message at least once) :
-      ∀ party p, (state of p after sched).result = (in-order run).result
--/
+/-- everything observable about a handler: verdict, result, round position, protocol state, the emitted
+    messages in order, the echo-hash table — every field of the state except the two internal message queues -/
+def outcome (s : State) :=
+  (s.err, s.result, s.cur, s.acc, s.out, s.closes, s.idx, s.reached, s.bh, s.accused)
+
+/-- ORDER INDEPENDENCE. For every hash `H`, every script `sc` and every honest message set `M`
+    (`Honest H sc M`, a decidable predicate: well-formed script; every message addressed to this party in this
+    session, of the kind its round expects, decodable and without failure flags, stamped with the session's echo
+    hash `expBh` of the preceding round; no two different messages for one (round, sender, kind)):
+    any two delivery sequences `l1`, `l2` of messages from `M` that deliver the same SET of messages — in any
+    order, with any repetitions, with messages of later rounds arriving arbitrarily early, and not necessarily
+    all of `M` — leave the handler with the same outcome. -/
+theorem order_independent (H : Bytes → Bytes) (sc : Script) (M : List Msg) (hM : Honest H sc M) (l1 l2 : List Msg)
+    (h1 : ∀ m ∈ l1, m ∈ M) (h2 : ∀ m ∈ l2, m ∈ M) (hsame : ∀ m, m ∈ l1 ↔ m ∈ l2) :
+    outcome (run H sc (l1.map Call.accept)) = outcome (run H sc (l2.map Call.accept)) := by
+  obtain ⟨_, e2, e3, e4, e5, e6, e7, e8, e9, e10, e11⟩ := (run_feq hM l1 l2 h1 h2 hsame).fields
+  unfold outcome
+  rw [e2, e3, e4, e5, e6, e7, e8, e9, e10, e11]
+
+/-- … and while the session is still running the two message queues hold the same entries too (they may be
+    filled in another order), so the two handlers also behave alike on every further input -/
+theorem order_independent_queues (H : Bytes → Bytes) (sc : Script) (M : List Msg) (hM : Honest H sc M)
+    (l1 l2 : List Msg) (h1 : ∀ m ∈ l1, m ∈ M) (h2 : ∀ m ∈ l2, m ∈ M) (hsame : ∀ m, m ∈ l1 ↔ m ∈ l2)
+    (hrun : terminal (run H sc (l1.map Call.accept)) = false) :
+    Sim (run H sc (l1.map Call.accept)) (run H sc (l2.map Call.accept)) :=
+  run_sim hM l1 l2 h1 h2 hsame hrun
+
+/-- two states related by `Sim` stay related under ANY further call (not only honest deliveries) -/
+theorem sim_congruence (H : Bytes → Bytes) (a b : State) (h : Sim a b) (calls : List Call) :
+    Sim (calls.foldl (apply H) a) (calls.foldl (apply H) b) := by
+  induction calls generalizing a b with
+  | nil => exact h
+  | cons c cs ih =>
+    apply ih
+    cases c <;> simp only [apply]
+    · exact accept_sim H h _
+    · exact h
+    · exact h
+    · exact h
+    · unfold stop
+      rw [terminal_sim h]
+      split
+      · exact h
+      · exact abort_sim h _
+
+/-- re-delivering messages that were already delivered changes nothing -/
+theorem redelivery_irrelevant (H : Bytes → Bytes) (sc : Script) (M : List Msg) (hM : Honest H sc M)
+    (l extra : List Msg) (h1 : ∀ m ∈ l, m ∈ M) (h2 : ∀ m ∈ extra, m ∈ l) :
+    outcome (run H sc ((l ++ extra).map Call.accept)) = outcome (run H sc (l.map Call.accept)) := by
+  apply order_independent H sc M hM
+  · intro m hm
+    rcases List.mem_append.mp hm with h | h
+    · exact h1 m h
+    · exact h1 m (h2 m h)
+  · exact h1
+  · intro m
+    simp only [List.mem_append]
+    exact ⟨fun h => h.elim id (h2 m), Or.inl⟩
+
+/-- any schedule that is a permutation-with-repetitions of a reference schedule `ref` (for instance the
+    in-order one) gives the result of `ref` -/
+theorem schedule_gives_reference_outcome (H : Bytes → Bytes) (sc : Script) (M : List Msg) (hM : Honest H sc M)
+    (ref sched : List Msg) (href : ∀ m ∈ ref, m ∈ M) (h1 : ∀ m ∈ sched, m ∈ ref) (h2 : ∀ m ∈ ref, m ∈ sched) :
+    outcome (run H sc (sched.map Call.accept)) = outcome (run H sc (ref.map Call.accept)) :=
+  order_independent H sc M hM sched ref (fun m hm => href m (h1 m hm)) href (fun m => ⟨h1 m, h2 m⟩)
+
+/-- the common outcome is never a verdict against anybody: whatever the order, duplication or earliness of the
+    honest messages, the handler does not abort with a message failure, an echo mismatch or a protocol abort
+    (the only error left is the own `Finalize` failure the script itself prescribes via `finErrAt`), and every
+    echo hash it computes is the session's `expBh` — the value `Honest` asks the peers' messages to carry -/
+theorem honest_delivery_never_blames (H : Bytes → Bytes) (sc : Script) (M : List Msg) (hM : Honest H sc M)
+    (l : List Msg) (hl : ∀ m ∈ l, m ∈ M) :
+    ((run H sc (l.map Call.accept)).err = none ∨ (run H sc (l.map Call.accept)).err = some .finalizeErr) ∧
+    ∀ r h, bhLookup (run H sc (l.map Call.accept)).bh r = some h → expBh H sc M r = some h :=
+  ⟨(run_clean hM l hl).2, (run_clean hM l hl).1⟩
+
+/-! ### non-vacuity: a concrete session (3 parties; rounds 1, 2 (broadcast), 3 (broadcast + p2p), 4 (p2p)) -/
+
+namespace Ex
+/-- a toy hash (length and byte sum); the theorems hold for every `H` -/
+def Hx : Bytes → Bytes := fun b => [UInt8.ofNat b.length, UInt8.ofNat (b.foldl (fun a x => a + x.toNat) 0)]
+def sc3 : Script := ⟨[[1], [2], [3]], [1], 4,
+  [⟨1, false, false⟩, ⟨2, true, false⟩, ⟨3, true, true⟩, ⟨4, false, true⟩], [7], [9], [], 0⟩
+def mk (frm to : Bytes) (r : Nat) (b : Bool) (bv : Option Bytes) : Msg :=
+  { ssid := some sc3.ssid, frm := frm, to := to, proto := sc3.proto, rnd := r,
+    data := some (cborContent ⟨honestV sc3 frm to r, 0⟩), bcast := b, bv := bv, dec := some ⟨honestV sc3 frm to r, 0⟩ }
+/-- what parties 2 and 3 send to party 1 (the echo hashes of rounds 2 and 3 under `Hx` are 5a4e and 5a61) -/
+def M3 : List Msg :=
+  [mk [2] [] 2 true none, mk [3] [] 2 true none,
+   mk [2] [] 3 true (some [90, 78]), mk [3] [] 3 true (some [90, 78]),
+   mk [2] [1] 3 false (some [90, 78]), mk [3] [1] 3 false (some [90, 78]),
+   mk [2] [1] 4 false (some [90, 97]), mk [3] [1] 4 false (some [90, 97])]
+/-- the in-order schedule is `M3` itself; this one is reversed (every message arrives early, p2p before
+    broadcast) with repetitions -/
+def sched : List Msg := M3.reverse ++ M3.take 3 ++ M3.reverse
+
+set_option maxRecDepth 100000 in
+theorem honest : Honest Hx sc3 M3 := by decide
+theorem sched_sub : ∀ m ∈ sched, m ∈ M3 := by decide
+theorem sched_all : ∀ m ∈ M3, m ∈ sched := by decide
+theorem sched_ne : sched ≠ M3 := by decide
+
+/-- the hypotheses of `order_independent` are satisfiable, with two different schedules -/
+example : outcome (run Hx sc3 (sched.map Call.accept)) = outcome (run Hx sc3 (M3.map Call.accept)) :=
+  schedule_gives_reference_outcome Hx sc3 M3 honest M3 sched (fun _ h => h) sched_sub sched_all
+
+-- the session of the example really completes: the scrambled schedule ends with the protocol's result, the
+-- handler's own echo-hash table being the one the peers stamped their messages with
+set_option maxRecDepth 1000000 in
+example : (run Hx sc3 (sched.map Call.accept)).result = some 20064 ∧ (run Hx sc3 (sched.map Call.accept)).err = none ∧
+    (run Hx sc3 (sched.map Call.accept)).bh = [(2, [90, 78]), (3, [90, 97])] := by decide
+
+set_option maxRecDepth 100000 in
+theorem still_running : terminal (run Hx sc3 ((M3.take 3).reverse.map Call.accept)) = false := by decide
+
+/-- … and of `order_independent_queues` (a session that is still running) -/
+example : Sim (run Hx sc3 ((M3.take 3).reverse.map Call.accept)) (run Hx sc3 ((M3.take 3).map Call.accept)) :=
+  order_independent_queues Hx sc3 M3 honest _ _ (by decide) (by decide) (fun _ => List.mem_reverse) still_running
+end Ex
 
 example : ∃ s m, canAccept s m = false := ⟨default, default, by decide⟩
 
